@@ -46,7 +46,7 @@ def main():
         meta = {
             'id': sid, 'property': prop,
             'what': whats[n - 1] if len(whats) >= n else '',
-            'source': 'independent sub-agent (round 2) given only the property text and a scratch worktree',
+            'source': 'independent sub-agent (round %s) given only the property text and a scratch worktree' % os.environ.get('SEED_ROUND', '3'),
             'confirmed': 'engine/seed_verify.sh in the agent worktree: ' + r.stdout.strip().splitlines()[-2],
             'files': files,
         }
